@@ -156,9 +156,12 @@ def run_shape(col, pid, rng, n, edges, exhaustive, limit, with_setup=False, with
         for i in range(n):
             r = rng.random()
             if r < 0.25:
-                tags[i] = "T%d" % rng.randrange(2)  # possibly shared
+                # possibly shared; some tags are substrings of other tags ("T1" in "T10", "aT1")
+                tags[i] = rng.choice(["T0", "T1", "T1", "T10", "aT1"])
             elif r < 0.35 and n > 1:
                 tags[i] = "f%d" % rng.choice([j for j in range(n) if j != i])  # a tag equal to ANOTHER node's id
+            elif r < 0.42 and n > 1:
+                tags[i] = "pre_f%d_x" % rng.choice([j for j in range(n) if j != i])  # a tag that CONTAINS another node's id
     g0 = nx.DiGraph()
     g0.add_nodes_from(range(n))
     g0.add_edges_from(edges)
